@@ -29,8 +29,8 @@ LEVEL = {
          "ln is not modelled (idf is an uninterpreted finite input); statistics over segments and explain() strings are outside"),
  "C13": ("K+M", "CBMC: for each DocSet type built over symbolic leaves, every program of 2 (quick) / 3 (thorough) calls over {advance, seek(t)} (plus fill_buffer / fill_bitset_block / count in the thorough tier) observes the sorted sequence of the type's set semantics, seek(t) = first doc >= t, TERMINATED is sticky, score independent of the access path; phrase / phrase-prefix scorers over array postings; BufferedUnionScorer across a window refill from a fixed reachable state (assume-guarantee cut: two fill_buffer calls -> link state -> advance); z3 over the MIR of fill_buffer: every document handed out releases its score slot.",
          "leaves <= 3 docs, programs <= 3 calls; postings-backed scorers on real segments, BufferedUnionScorer programs starting at build() and its scores as values are outside (measured: 50 GB)"),
- "C15": ("K", "Kernel level, CBMC: sstable VInt, common prefix, separator-key contract, order enforcement of Writer::insert_key.",
-         "whole Dictionary, block index, streaming, merges, fst and automata are outside (measured infeasible)"),
+ "C15": ("K", "Kernel level, CBMC: sstable VInt, common prefix, separator-key contract and refusal of unordered pairs across block boundaries, order enforcement of Writer::insert_key, block selection of Dictionary::file_slice_for_range (with limit) on a v2 block index written down directly.",
+         "block decoding / streaming, merges, the fst-based v3 index and automata are outside (measured infeasible)"),
  "C17": ("K", "Kernel level, CBMC: DocIdMapping inverse / remap on all permutations of 4, permutation validation, order-independence of the delete rule.",
          "IndexMerger sort paths and per-structure remaps need segment readers and are outside"),
  "C18": ("K+M", "CBMC: the default lock implementation as a state machine (at most one live guard, acquire Ok iff free, failed acquire changes nothing); z3 over MIR: writer creation acquires INDEX_WRITER_LOCK before IndexWriter::new, rollback moves the guard without re-acquiring or dropping.",
